@@ -13,6 +13,7 @@ import Driver.Ops.Subst
 import Driver.Ops.ParseComp
 import Driver.Ops.ParsePil
 import Driver.Ops.ParseSys
+import Driver.Ops.ParseFixed
 /-! Registry of operation handlers: each model area adds one import above and one entry below. -/
 open Lean
 namespace Pepper.Driver
@@ -31,7 +32,8 @@ def handlers : List (String → Json → Option Json) := [
   Subst.handle?,
   ParseCompOps.handle?,
   ParsePilOps.handle?,
-  ParseSysOps.handle?
+  ParseSysOps.handle?,
+  ParseFixedOps.handle?
 ]
 
 def handle (j : Json) : Json :=
